@@ -117,6 +117,8 @@ type Sim struct {
 	BurstMax  int // >0: burst stepping
 	burstLeft int
 
+	memberClock int64 // order of writes accepted by scripted members (under mu)
+
 	yieldSeed    uint64
 	yieldDensity int // per 1000
 	yieldCount   map[int]int
